@@ -13,63 +13,63 @@ claim("C02", "CFG dominance of filters over every address producer, comparator d
       "Every producer of an address (getIPFromCIDR, poolFor, pinned/fallback pool lists, family selection) is dominated by its membership / policy filters, and the explicit-request branches cannot reach automatic allocation; decided on all paths of the current source. Not a proof of the value-level policy.",
       NOTE, "DESIGN.md section 5, C02")
 claim("C03", "frozen table of admissible reasons + reachability, path-sensitive typestate (emptiness), ownership of Unassign, dominance",
-      "On all paths of convergeBalancer/SetBalancer/SetPools/Allocate: outside twelve enumerated reasons no clear/reset/allocation is reachable, recorded addresses are re-adopted before allocation, existing allocations are returned unchanged, re-grouped pools re-home, no status write without a difference; restart gate/order shared with C06; READOPT-FIRST (the first full pass re-adopts before it allocates) is a recorded known finding (D15). Not a proof of the frame condition over histories.",
+      "On all paths of convergeBalancer/SetBalancer/SetPools/Allocate: outside twelve enumerated reasons no clear/reset/allocation is reachable, recorded addresses are re-adopted before allocation, existing allocations are returned unchanged, re-grouped pools re-home, no status write without a difference; restart gate/order shared with C06; READOPT-FIRST (the first full pass re-adopts before it allocates) is a recorded known finding (D15). Not a proof of the frame condition over histories. Round 8: what a reconciler reads from the API is used only when the read succeeded (FETCH-CHECKED), and the full pass that opens the restart gate is started by reload requests only (RELOAD-ONLY).",
       NOTE, "DESIGN.md section 5, C03")
 claim("C06", "CFG dominance (gate), field ownership, comparator analysis, sibling agreement of SyncState switches, path-sensitive typestate",
-      "Restart gate, gate write, assigned-first order, Error->retry / ReprocessAll->reload in all five switches, failed status write -> SyncStateError without touching the allocator, clear-before-allocate, refused requests give their addresses back, the client's UpdateStatus reports every API refusal and the full pass lists the Services in one unrestricted call (WRITE-ERR); decided on all paths. READOPT-FIRST (a re-adoption pass before the allocating pass) is a recorded known finding (D15). Not a proof of restart equivalence over crash points.",
+      "Restart gate, gate write, assigned-first order, Error->retry / ReprocessAll->reload in all five switches, failed status write -> SyncStateError without touching the allocator, clear-before-allocate, refused requests give their addresses back, the client's UpdateStatus reports every API refusal and the full pass lists the Services in one unrestricted call (WRITE-ERR); decided on all paths. READOPT-FIRST (a re-adoption pass before the allocating pass) is a recorded known finding (D15). Not a proof of restart equivalence over crash points. Round 8: FETCH-CHECKED and RELOAD-ONLY (the gate cannot be opened by a per-Service event before the pools were delivered).",
       NOTE, "DESIGN.md section 5, C06")
 claim("C07", "must-pass-through / branch-always path rules, loop-exit analysis, parameter-threading agreement across call sites",
       "Every release path requests and propagates a full re-sync; the free-address search has no early exit and uses the same keys as the final Assign; decided on all paths. Not a completeness proof against an admissibility oracle.",
       NOTE, "DESIGN.md section 5, C07")
 
 claim("C04", "comparator analysis (SORT-IDX, SORT-KEY), map-order must-pass-through, CFG dominance of eligibility filters, known-finding gate",
-      "The layer-2 election is a deterministic key-based argmin over candidates that all passed the eligibility filters; decided on all paths. ELECTION-SCOPE is a recorded known finding (D9). Not a proof that speakers share a view.",
+      "The layer-2 election is a deterministic key-based argmin over candidates that all passed the eligibility filters; decided on all paths. ELECTION-SCOPE is a recorded known finding (D9). Not a proof that speakers share a view. Round 8: MEMBERSHIP (UsableSpeakers reports `disabled` only without memberlist and otherwise every member; every membership event forces a resync) and the address list handed to the election (IP-CHANGE, shared with C09).",
       NOTE, "DESIGN.md section 5, C04")
 claim("C05", "CFG path rules, loop-skip analysis, field-coverage (sibling) tables, ownership of activeAds",
       "Per-(address, advertisement) route construction, per-peer filtering, republish-after-change, session selection, Peer->SessionParameters coverage, wholesale replacement of activeAds; decided on all paths. Not a proof of route-set equality as values.",
       NOTE, "DESIGN.md section 5, C05")
 claim("C09", "must-pass-through on every exit, branch-always, ownership, for-all loops, shape analysis of the set-comparison helper",
-      "Every exit withdraws or evaluates, refusal and errors withdraw/retry in the right order, per-protocol state is rebuilt not accumulated, configuration and node changes request a re-sync; decided on all paths. Not a proof of fresh-speaker equivalence over histories.",
+      "Every exit withdraws or evaluates, refusal and errors withdraw/retry in the right order, per-protocol state is rebuilt not accumulated, configuration and node changes request a re-sync; decided on all paths. Not a proof of fresh-speaker equivalence over histories. Round 8: a configuration refused because of what is announced is reported as SyncStateError so that it is retried (REFUSAL-RETRIED); MEMBERSHIP; the withdraw message names every prefix (WHOLE-WITHDRAW).",
       NOTE, "DESIGN.md section 5, C09")
 claim("C10", "CFG dominance of required guards, refusal-reason enumeration, sticky-false path rule inside the address loop",
       "The empty (announce) answer is dominated by all five required predicates on the local node, no other refusal exists, an unready entry always vetoes its address; decided on all paths.",
       NOTE, "DESIGN.md section 5, C10")
 claim("C12", "comparator analysis (key-based argmin premise of rendezvous hashing)",
-      "Structural premise of rendezvous hashing decided (same key expression at i and j, key inputs = node name and first address only, winner = element 0 of the sorted list); minimal failover follows mathematically. ELECTION-SCOPE is a recorded known finding (D9).",
+      "Structural premise of rendezvous hashing decided (same key expression at i and j, key inputs = node name and first address only, winner = element 0 of the sorted list); minimal failover follows mathematically. ELECTION-SCOPE is a recorded known finding (D9). Round 8: MEMBERSHIP and IP-CHANGE are decided for this property as well.",
       NOTE, "DESIGN.md section 5, C12")
 
 claim("C08", "for-all-loop guard analysis, CFG dominance, field ownership, emptiness guard on parser results",
       "The accept path of the configuration always runs the exactness / disjointness / node-IP / containment / local-preference checks for every element, and the parser cannot accept an entry yielding nothing; decided on all paths. Not a proof of the arithmetic inside ipaddr.Summarize or of selector semantics.",
       NOTE, "DESIGN.md section 5, C08")
 claim("C18", "map-iteration-order taint analysis over the call-graph closure, comparator analysis (SORT-IDX, total order), field coverage, CFG dominance",
-      "Neither API listing order nor Go map order can reach the compared configuration value: all listed kinds are sorted copies, no map-ordered slice escapes unsorted from the closure of config.For/toConfig, comparators index what they sort, reconcilers compare before applying, the remembered configuration is not written by the handlers (SHARED-CONFIG; D16 repaired in a88bb7b) and acceptance of an advertisement judges every address group by its own family (ADV-VALID). Decided for every input at once. Not decided: last-writer-wins value questions beyond the structural MAP-LWW rule, order of error messages.",
+      "Neither API listing order nor Go map order can reach the compared configuration value: all listed kinds are sorted copies, no map-ordered slice escapes unsorted from the closure of config.For/toConfig, comparators index what they sort, reconcilers compare before applying, the remembered configuration is not written by the handlers (SHARED-CONFIG; D16 repaired in a88bb7b) and acceptance of an advertisement judges every address group by its own family (ADV-VALID). Decided for every input at once. Not decided: last-writer-wins value questions beyond the structural MAP-LWW rule, order of error messages. Round 8: the remembered configuration changes only with the handler's outcome; FETCH-CHECKED; the per-Service advertisement copies the peer list (AD-BUILD).",
       NOTE, "DESIGN.md section 5, C18")
 
 claim("C11", "sibling set agreement (assign vs Unassign), loop must-pass rules, numeric typestates (saturating accumulator, guarded decrement), field-map agreement",
       "Bookkeeping symmetry per address on all paths (including a pool that no longer exists), zero-delete, refresh-after-mutation, saturation and non-negativity of the capacity counters, name-for-name status copy with write errors returned. Not decided: the /24 arithmetic arm of poolCount, equality with a rebuilt allocator as values.",
       NOTE, "DESIGN.md section 5, C11")
 claim("C20", "must-hold lockset dataflow with caller-holds fixed point and LIFO defer modelling, who-may-call / method-value escape analysis, alias-of-guarded-storage check",
-      "Mutual exclusion premises decided on all paths: handlers only run under the Listener mutex, every guarded field is accessed under its lock, callbacks and channel sends run outside the fine-grained locks, no mutable guarded storage is handed out, nothing waits for another goroutine under the announcer lock, the status reconcilers never write through what a fetcher handed out (FETCHED-READONLY), and nothing outside internal/config stores into the parsed configuration that the reconcilers compare lock-free - directly, or through a pointer / map / slice field of a copy or of the session parameters built from it (SHARED-CONFIG; D16 repaired in a88bb7b). Serial equivalence of results is a consequence, not checked on values; lock instances are not distinguished (no pointer analysis); what a local copy of a configuration struct still shares is tracked one field deep (a store through a pointer, map or slice field of the copy), not further.",
+      "Mutual exclusion premises decided on all paths: handlers only run under the Listener mutex, every guarded field is accessed under its lock, callbacks and channel sends run outside the fine-grained locks, no mutable guarded storage is handed out, nothing waits for another goroutine under the announcer lock, the status reconcilers never write through what a fetcher handed out (FETCHED-READONLY), and nothing outside internal/config stores into the parsed configuration that the reconcilers compare lock-free - directly, or through a pointer / map / slice field of a copy or of the session parameters built from it (SHARED-CONFIG; D16 repaired in a88bb7b). Serial equivalence of results is a consequence, not checked on values; lock instances are not distinguished (no pointer analysis); what a local copy of a configuration struct still shares is tracked one field deep (a store through a pointer, map or slice field of the copy), not further. Round 8: a guarded map / slice / pointer taken into a local under the lock is not used after the lock was released (alias check of LOCK-GUARDED).",
       NOTE, "DESIGN.md section 5, C20")
 
 claim("C13", "CFG dominance of reply guards, loop-exhaustion analysis of the verdict, append-iff-increment pairing, lockset dataflow restricted to layer2",
-      "The responders reply only behind the request-type, destination and announcer-verdict guards; the verdict is positive only for a matching advertisement and negative only after a full scan; advertisements and reference counts move together; unsolicited announcements need a positive count; all announcer state is lock-guarded. Decided on all paths; packet-level library behaviour is not.",
+      "The responders reply only behind the request-type, destination and announcer-verdict guards; the verdict is positive only for a matching advertisement and negative only after a full scan; advertisements and reference counts move together; unsolicited announcements need a positive count; all announcer state is lock-guarded. Decided on all paths; packet-level library behaviour is not. Round 8: the service's whole entry is dropped only with its last advertisement.",
       NOTE, "DESIGN.md section 5, C13")
 claim("C17", "lockset dataflow, condition-variable wake-up rule, typestate of closed/conn, must-pass / branch-always path rules, field coverage of Equal",
-      "Lock discipline of the session, wake-ups after predicate changes, no dial/store after close, ASN refusal, abort on every failed send, the pending set is never dropped, full re-send before the first wait, exact diff/withdraw construction, commit after both phases; decided on all paths. Convergence over all interleavings is not decided.",
+      "Lock discipline of the session, wake-ups after predicate changes, no dial/store after close, ASN refusal, abort on every failed send, the pending set is never dropped, full re-send before the first wait, exact diff/withdraw construction, commit after both phases; decided on all paths. Convergence over all interleavings is not decided. Round 8: WHOLE-WITHDRAW (sendWithdraw encodes every prefix it is given) and VALIDATED (what Set accepts the encoders can encode).",
       NOTE, "DESIGN.md section 5, C17")
 
 claim("C16", "writer/reader layout agreement from packed struct layouts, constant folding of the OPEN literal + RFC 4271 walk, attribute TLV size agreement, narrowing-conversion audit, bounded-decoder rule",
-      "Offsets patched into messages equal the layout of the struct written; OPEN option/capability lengths cover exactly their bytes; constant attribute headers match the size of the payload writes; every narrowing is checked; the OPEN decoder reads only through LimitedReaders bound to the announced lengths and cannot panic or spin; the connection's reader is consumed by exact reads only, never through a buffering wrapper (NO-READAHEAD). Decided for every input at once; the value-level round trip is not.",
+      "Offsets patched into messages equal the layout of the struct written; OPEN option/capability lengths cover exactly their bytes; constant attribute headers match the size of the payload writes; every narrowing is checked; the OPEN decoder reads only through LimitedReaders bound to the announced lengths and cannot panic or spin; the connection's reader is consumed by exact reads only, never through a buffering wrapper (NO-READAHEAD). Decided for every input at once; the value-level round trip is not. Round 8: a result overwritten as a whole starts from everything collected so far (CAPS-UNION whole-result-store); a header read as raw bytes is held to the same length rules.",
       NOTE, "DESIGN.md section 5, C16")
 
 claim("C14", "static type checker for text/template sources against go/types, template line-structure rules, map-order taint, field coverage, CFG dominance",
-      "The embedded FRR templates type-check against the Go data structs (the package's own tests need Docker and never run in the baseline), every data field is rendered, neighbour scoping / prefix-list naming / default-deny / on-match-next structure holds, the data handed to the templates is deterministic and complete, family-indexed sets follow the prefix family, every per-neighbour name includes address-or-interface and VRF (NAME-SCOPE), a neighbour entry reads nothing left over from the session visited before it, Set validates and rolls back, merges are guarded. FRR's interpretation of the text is not decided.",
+      "The embedded FRR templates type-check against the Go data structs (the package's own tests need Docker and never run in the baseline), every data field is rendered, neighbour scoping / prefix-list naming / default-deny / on-match-next structure holds, the data handed to the templates is deterministic and complete, family-indexed sets follow the prefix family, every per-neighbour name includes address-or-interface and VRF (NAME-SCOPE), a neighbour entry reads nothing left over from the session visited before it, Set validates and rolls back, merges are guarded. FRR's interpretation of the text is not decided. Round 8: the session table key reads every identifying parameter (SESSION-KEY) and routers are keyed by router id, ASN and VRF (ROUTER-KEY); a template piece moved into a template of its own is read where it is called.",
       NOTE, "DESIGN.md section 5, C14")
 claim("C15", "field-sensitive map-order taint with comparator total-order obligations, loop must-pass rules, field coverage, sibling agreement between back ends, lockset dataflow",
-      "The FRRConfiguration is a deterministic function of the session set (no map order escapes), allowed prefixes are the sorted de-duplicated prefixes of the neighbour's own session, associations are per session and sorted, password XOR secret, node targeting, parameter coverage, identical validation in all back ends, reconciler state under its lock. Equivalence with FRR mode as values is not decided.",
+      "The FRRConfiguration is a deterministic function of the session set (no map order escapes), allowed prefixes are the sorted de-duplicated prefixes of the neighbour's own session, associations are per session and sorted, password XOR secret, node targeting, parameter coverage, identical validation in all back ends, reconciler state under its lock. Equivalence with FRR mode as values is not decided. Round 8: SESSION-KEY and ROUTER-KEY for the frr-k8s back end.",
       NOTE, "DESIGN.md section 5, C15")
 
 claim("C19", "finite typestate / path rules over the debouncer goroutine's CFG, must-pass submit rules, call-graph reachability for lock freedom, error-return rules",
-      "The pending configuration is overwritten only by newer submissions, every non-ignored event arms the timer, failures re-arm and keep the flag, the applied value is the pending variable; every state change of the session manager is followed by generate-and-submit; the reload always writes the whole file (truncating) and signals, and stores nothing through the configuration object it is handed (ACTION-READONLY: the debouncer retries with that object); nothing reachable from the debouncer takes the submitters' mutex; frr-k8s delivery stores before signalling and returns API errors. Liveness/timing is not decided.",
+      "The pending configuration is overwritten only by newer submissions, every non-ignored event arms the timer, failures re-arm and keep the flag, the applied value is the pending variable; every state change of the session manager is followed by generate-and-submit; the reload always writes the whole file (truncating) and signals, and stores nothing through the configuration object it is handed (ACTION-READONLY: the debouncer retries with that object); nothing reachable from the debouncer takes the submitters' mutex; frr-k8s delivery stores before signalling and returns API errors. Liveness/timing is not decided. Round 8: the reload action completes inside the timeout case (no attempt in flight while the loop keeps receiving).",
       NOTE, "DESIGN.md section 5, C19")
